@@ -264,6 +264,43 @@ theorem pm2_suffix {lastT : Int} {la lb : List Sample} (hs : SSorted la) (hsuf :
       · intro z hz
         have := ssorted_head_lt hs z hz; omega
 
+/-- **Side `b` holds a subset of side `a`'s samples** (a replica with holes, a shorter replica, a
+    virtual replica cut out of the same sequence): side `a` always has the smaller or equal head,
+    so the merge is `a`.  Generalises `pm2_suffix`. -/
+theorem pm2_sublist {lastT : Int} {la lb : List Sample} (hs : SSorted la) (hsub : lb.Sublist la)
+    (hl : ∀ x, la.head? = some x → lastT ≤ x.t) : pm2 lastT la lb = la := by
+  induction la generalizing lastT lb with
+  | nil =>
+    have : lb = [] := List.sublist_nil.mp hsub
+    subst this; simp [pm2]
+  | cons x ta ih =>
+    have hta := (List.pairwise_cons.mp hs).2
+    cases lb with
+    | nil => exact pm2_nil_right _ hs
+    | cons y tb =>
+      have hy : y ∈ x :: ta := hsub.subset (List.mem_cons_self ..)
+      have hxy : x.t ≤ y.t := by
+        rcases List.mem_cons.mp hy with rfl | hy
+        · exact Int.le_refl _
+        · have := (List.pairwise_cons.mp hs).1 y hy; omega
+      rw [pm2]
+      simp only [hxy, if_true]
+      rw [dropLt_eq_self (ssorted_head_lt hs)]
+      congr 1
+      apply ih hta
+      · -- what is left of b after the seek lies in a's tail
+        have hp := pen_nonneg (lastT := lastT) (t := x.t) (hl x rfl)
+        have hd := dropLt_sublist (x.t + 1 + pen lastT x.t) (y :: tb)
+        -- every element left is > x.t, hence not x, hence in ta
+        have hsub2 : (dropLt (x.t + 1 + pen lastT x.t) (y :: tb)).Sublist (x :: ta) := hd.trans hsub
+        rcases List.sublist_cons_iff.mp hsub2 with h | ⟨r, hr, _⟩
+        · exact h
+        · -- it would start with x, but its head is ≥ x.t + 1
+          have := head_dropLt_ge (t := x.t + 1 + pen lastT x.t) (l := y :: tb) (x := x) (by rw [hr]; rfl)
+          omega
+      · intro z hz
+        have := ssorted_head_lt hs z hz; omega
+
 /-! ### the timestamps of the merge depend only on what `Seek` can observe of the inputs -/
 
 theorem dropLt_dropLt (j k : Int) (l : List Sample) :
